@@ -1,11 +1,16 @@
 #!/bin/bash
-# runs every quick check once and prints one line per property (exit code, wall time)
+# runs every check once and prints one line per property (exit code, wall time)
 cd "$(dirname "$0")/.."
 tier=${1:-quick}
+mkdir -p .work
+if [ -n "$VP_RUN_REPO" ]; then
+  # a background snapshot run: build against the snapshot of the repository, not /repo itself
+  sed -i "s#\"/repo/#\"$VP_RUN_REPO/#" harness/Cargo.toml
+fi
 for p in C01 C02 C03 C04 C05 C06 C07 C08 C09 C10 C11 C12 C13 C14 C15 C16 C17 C18 C19 C20; do
   s=$(date +%s)
   ./check $p --tier $tier > .work/runall-$p.log 2>&1
   rc=$?
   e=$(date +%s)
-  echo "$p exit=$rc $((e-s))s $(grep -c '^VIOLATION' .work/runall-$p.log) violations $(grep -c '^KNOWN-FINDING' .work/runall-$p.log) known"
+  echo "$p exit=$rc $((e-s))s $(grep -c '^VIOLATION' .work/runall-$p.log) violations $(grep -c '^KNOWN-FINDING' .work/runall-$p.log) known $(grep -m1 'TOOL-ERROR' .work/runall-$p.log | cut -c1-200)"
 done
